@@ -318,8 +318,14 @@ func Verif_C02_IOFaults() {
 		verifsym.FSFailOpen(sumPath)
 	}
 	src, _ := verifsym.FSGet(w.root + "/p/p.go")
+	before := vSnapshot()
 	err := w.exec(true, true, nil, vProtoA(), &vGenB{})
 	verifsym.Assert(err != nil, "an I/O failure while writing the output is not reported")
+	// nothing but outputs may appear (e.g. no temporary file left behind next to gengo.sum)
+	for f := range vSnapshot() {
+		_, had := before[f]
+		verifsym.Assert(had || f == vGenFile(w, "p", "ga") || f == vGenFile(w, "p", "gb") || f == sumPath, "a run that failed on I/O left a file behind that is not one of its outputs")
+	}
 	if which < 2 {
 		d, ok := verifsym.FSGet(sumPath)
 		verifsym.Assert(ok && d == "example.com/m/p h1:old\n", "gengo.sum rewritten although a generated file could not be written")
